@@ -37,7 +37,10 @@ def mod_ident(v):
     if v[0] == 'const':
         d = v[1].get('def') or ''
         if 'GameModsLegacy::' in d:
-            return d.split('::')[-1], 'legacy'
+            # two legacy constants carry another name than the mod they stand for (rosu-mods 0.3.1, read: legacy.rs `KeyCoop = 1 << 25`, generated_mods.rs
+            # `DualStages => Some(33554432)`; `Target = 1 << 23`, `TargetPractice => Some(8388608)`)
+            nm = d.split('::')[-1]
+            return {'KeyCoop': 'DualStages', 'Target': 'TargetPractice'}.get(nm, nm), 'legacy'
         if 'GameModIntermode' in (v[1].get('ty') or '') and v[1].get('val'):
             return v[1]['val'], 'intermode'
     return None, None
@@ -71,6 +74,7 @@ def run(ctx):
         ctx.violation('C08-R1', 'anchor-missing:GameModsLegacy', 'associated constants of rosu_mods::GameModsLegacy not available')
         return
     legacy_consts = set(legacy['consts'])
+    legacy_consts |= {new_ for old_, new_ in (('KeyCoop', 'DualStages'), ('Target', 'TargetPractice')) if old_ in legacy_consts}     # same aliases as mod_ident
     # ---- R1: has-mod family = methods of GameMods returning bool whose arms are contains(..)/const
     n_has = 0
     for f in F.methods(adt=GM, inherent_only=True):
